@@ -196,6 +196,81 @@ def enum_clause(registry, name, enum, rule="", oracle="", exhaustive_note="", re
     return deco
 
 
+def machine_clause(registry, name, machine, make_history, quick=100, thorough=400, quick_steps=30, thorough_steps=60,
+                   rule="", oracle="", require=None, min_nontrivial=0.05, shards=16, quick_shards=1):
+    """A clause over call *histories*, explored by a Hypothesis RuleBasedStateMachine.
+
+    machine: subclass of HistoryMachine (rules call self.start(init) once and self.do(op, args) per step);
+    make_history(init, ctx) -> object with .step(op, args) and .finish(), raising Violation when the history breaks the clause.
+    A case is {"init": ..., "ops": [[op, args], ...]} and replays through make_history without Hypothesis."""
+    def fn(case, ctx):
+        h = make_history(case["init"], ctx)
+        for op, args in case["ops"]:
+            h.step(op, args)
+        h.finish()
+    cl = Clause(name, fn, quick=quick, thorough=thorough, rule=rule, oracle=oracle, require=require,
+                min_nontrivial=min_nontrivial, shards=shards, quick_shards=quick_shards)
+    cl.kind = "machine"
+    cl.machine = machine
+    cl.make_history = make_history
+    cl.steps = {"quick": quick_steps, "thorough": thorough_steps}
+    registry.append(cl)
+    return cl
+
+
+def history_machine_base():
+    """Base class factory (imports hypothesis lazily)."""
+    from hypothesis.stateful import RuleBasedStateMachine
+
+    class HistoryMachine(RuleBasedStateMachine):
+        _hooks = None          # set by the runner: object with .done(case, ctx), .fail(case, exc, kind), .kf_open
+        _make_history = None   # set by the runner from the clause
+
+        def __init__(self):
+            super().__init__()
+            self.case = None
+            self.ctx = None
+            self.h = None
+            self._dead = False
+
+        def start(self, init):
+            self.ctx = Ctx(kf_open=self._hooks.kf_open)
+            self.case = {"init": init, "ops": []}
+            self._guard(lambda: setattr(self, "h", type(self)._make_history(init, self.ctx)))
+
+        def do(self, op, args):
+            if self.h is None:
+                return
+            self.case["ops"].append([op, args])
+            self._guard(lambda: self.h.step(op, args))
+
+        def _guard(self, thunk):
+            try:
+                with warnings.catch_warnings():
+                    warnings.simplefilter("ignore")
+                    old = np.seterr(all="ignore")
+                    try:
+                        thunk()
+                    finally:
+                        np.seterr(**old)
+            except Violation as v:
+                self._dead = True
+                self._hooks.fail(self.case, v, "violation")
+                raise
+            except Exception as e:  # noqa
+                self._dead = True
+                self._hooks.fail(self.case, e, "harness")
+                raise
+
+        def teardown(self):
+            if self.h is None or self._dead:
+                return
+            self._guard(self.h.finish)
+            self._hooks.done(self.case, self.ctx)
+
+    return HistoryMachine
+
+
 # ---------------------------------------------------------------------------
 # canonical JSON / hashing / abbreviations
 
